@@ -250,6 +250,16 @@ def exhaustive(quick):
     return out
 
 
+def rotate_layouts(cases):
+    """every third bounded-exhaustive case presents its arrays in another memory layout (rotating through all)"""
+    import random as _r
+
+    for i, c in enumerate(cases):
+        if i % 3 == 0:
+            R.set_layouts(_r.Random(i), c["g"], p=0.7)
+    return cases
+
+
 def special_cases():
     """hand-picked: several properties, name clashes with path constants, axes, caller metadata, error branch"""
     out = []
@@ -400,7 +410,7 @@ def run(ck: common.Check):
                "malformed stream; every case on MemoryStore x zarr_format 2 and 3, a sample on LocalStore/Path/str; "
                "non-trivial = at least one node or one property; distinct = distinct canonical case JSON")
     cases = [c for c in R.corpus(PROP)]
-    base = exhaustive(ck.quick) + special_cases()
+    base = rotate_layouts(exhaustive(ck.quick)) + special_cases()
     nrand = 700 if ck.quick else 3000
     nmal = 150 if ck.quick else 600
     base += [random_case(ck.rng, ck.quick) for _ in range(nrand)]
